@@ -1,5 +1,9 @@
 use clap::{Arg, Command};
-use std::{fs::File, io::Write, path::Path};
+use std::{
+    fs::File,
+    io::Write,
+    path::{Path, PathBuf},
+};
 use zeep_lib::{
     reader::{WriteXml, XmlReader},
     utils::read_input_file_and_xsd_files_at_path,
@@ -40,6 +44,16 @@ fn main() {
     let mut generated = Vec::new();
     document.write_xml(&mut generated).expect("can not write xml");
 
-    let mut file = File::create(output_file).expect("can not create file");
-    file.write_all(&generated).expect("can not write file");
+    // write next to the target and move the file into place: a write that fails half way (full
+    // disk, quota) must not leave a truncated file where the previous output was
+    let mut temporary_name = output_file.clone().into_os_string();
+    temporary_name.push(".tmp");
+    let temporary_file = PathBuf::from(temporary_name);
+    let written = File::create(&temporary_file)
+        .and_then(|mut file| file.write_all(&generated))
+        .and_then(|()| std::fs::rename(&temporary_file, &output_file));
+    if let Err(error) = written {
+        let _ = std::fs::remove_file(&temporary_file);
+        panic!("can not write file: {error}");
+    }
 }
